@@ -517,12 +517,25 @@ func (s *snapStore) Open(id string) (*raft.SnapshotMeta, io.ReadCloser, error) {
 		if r.Meta.ID == id {
 			m := r.Meta
 			m.Configuration = m.Configuration.Clone()
-			s.inc.openedSnapIdx = m.Index
-			return &m, io.NopCloser(bytes.NewReader(r.Data)), nil
+			// which snapshot an FSM.Restore was given is learnt from the reader it drains (several
+			// snapshots can be open at once: a leader streams one to a follower while it restores another)
+			return &m, &snapReader{Reader: bytes.NewReader(r.Data), inc: s.inc, idx: m.Index}, nil
 		}
 	}
 	return nil, nil, fmt.Errorf("snapshot %s not found", id)
 }
+
+type snapReader struct {
+	*bytes.Reader
+	inc *Inc
+	idx uint64
+}
+
+func (r *snapReader) Read(p []byte) (int, error) {
+	r.inc.openedSnapIdx = r.idx
+	return r.Reader.Read(p)
+}
+func (r *snapReader) Close() error { return nil }
 
 func (k *snapSink) ID() string { return k.meta.ID }
 
